@@ -51,7 +51,7 @@ def build(case):
                              'lock': 1, 'borrow': 1, 'transfer': 1, 'put': 1, 'get': 1}
     elif style < 0.45:
         kwargs['weights'] = {'cancel': 8, 'await_task': 6, 'spawn': 5, 'scope': 10}
-    kwargs['start_times'] = (0, 0, -5, 0.5, 7)
+    kwargs['start_times'] = (0, 0, 0, -5, 0.5, 7, 2.0 ** 53)
     return Gen(rng, **kwargs).program(), rng
 
 
